@@ -14,6 +14,7 @@ CONSTANTS
   ReadMax = {4}
   Closers = {"A"}
   MuxDroppers = {"A", "B"}
+  Cancellers = {}
   DgSenders = {}
   MaxDgrams = 0
   Binders = {}
